@@ -645,6 +645,13 @@ def obj_default_attr(it, o, name):
             return o.attrs.get(name)
         if name == '__suppress_context__':
             return o.attrs.get(name, False)
+        if name in ('errno', 'strerror', 'filename') and any(
+                c.host is OSError for c in o.cls.mro):
+            a = o.attrs.get('args', ())
+            if len(a) >= 2:
+                return {'errno': a[0], 'strerror': a[1],
+                        'filename': a[2] if len(a) > 2 else None}[name]
+            return None
         if name == 'with_traceback':
             I = _interp_types()
 
